@@ -2,6 +2,7 @@ import CppUModel.Base.Proto
 import CppUModel.Model.OutputOps
 import CppUModel.Model.TeamCity
 import CppUModel.Model.TeamCityLoop
+import CppUModel.Model.TeamCityMock
 import CppUModel.Spec.TeamCity
 /-!
 Driver for C20.  Model replay: the registry described by the operations is run through the runner
@@ -16,6 +17,10 @@ open OutEv OutOps TeamCity
 structure DState where
   reg : Reg := {}
   composite : Nat := 0        -- `composite <1|2>`: the TeamCity output is outputOne_ / outputTwo_ of a CompositeTestOutput
+  mocks : List (Nat × Text.Bytes) := []   -- `mockleft <name>`: (index of the test, expected function never called), newest first
+
+/-- the scripts of the run with the mock scenario folded in (`Model/TeamCityMock.lean`) -/
+def DState.scripts (d : DState) : List Script := TeamCityMock.applyMocks d.reg.scripts d.mocks
 
 def modelStep (d : DState) (op : List String) (_obs : List (List String)) : DState × List String :=
   match op with
@@ -23,12 +28,16 @@ def modelStep (d : DState) (op : List String) (_obs : List (List String)) : DSta
     -- `-p` (every test in its own process) is not part of the writer model: such a run is only judged by the oracle
     if d.reg.separate then (d, []) else
     if d.composite != 0 && !d.reg.realio then
-      (d, ["out " ++ Proto.hex (TeamCity.streamComposite d.composite (d.reg.verbosity == 2) (RunLoop.runRepeatedGen d.reg.repeats d.reg.filter d.reg.scripts)),
+      (d, ["out " ++ Proto.hex (TeamCity.streamComposite d.composite (d.reg.verbosity == 2) (RunLoop.runRepeatedGen d.reg.repeats d.reg.filter d.scripts)),
            "sink 1"]) else
-    (d, ["out " ++ Proto.hex (TeamCity.streamV (d.reg.verbosity == 2) (RunLoop.runRepeatedGen d.reg.repeats d.reg.filter d.reg.scripts))])
+    (d, ["out " ++ Proto.hex (TeamCity.streamV (d.reg.verbosity == 2) (RunLoop.runRepeatedGen d.reg.repeats d.reg.filter d.scripts))])
   | ["skip"] => (d, [])
   | ["childstop"] => (d, [])         -- only acts in a forked test process of a `-p` run (judged by the oracle only)
   | ["slow", _] => (d, [])          -- real time, invisible to the stubbed clock
+  | ["mockleft", h] =>
+    match Proto.unhex? h with
+    | some n => (if d.reg.tests.isEmpty then d else { d with mocks := (d.reg.tests.length - 1, n) :: d.mocks }, [])
+    | none => (d, ["bad-op"])
   | ["composite", "1"] => ({ d with composite := 1 }, [])
   | ["composite", "2"] => ({ d with composite := 2 }, [])
   | w =>
@@ -70,35 +79,44 @@ inductive Want
   | suiteStarted (n : Text.Bytes) | suiteFinished (n : Text.Bytes)
   | testStarted (n : Text.Bytes) | testIgnored (n : Text.Bytes) | testFinished (n : Text.Bytes)
   | testFailed (t : TestInfo) (file : Text.Bytes) (line : Nat) (details : Text.Bytes)
+  /-- a failure found by the mock plugin's post-test action for test `t`: it must name `t`, be located at `t`, and its
+      details (text composed by the mock framework, not by this property's subject) must contain the function name intact -/
+  | mockFailed (t : TestInfo) (fname : Text.Bytes)
 deriving Inhabited
 
 /-- `separate` = the run used `-p`: the test's own failures are reported by its child process, and the
     runner adds one more ("Failed in separate process", located at the test) when the child failed;
     `stop` = the test's process stops itself at the start of the body (`childstop`, only effective with `-p`): the runner
     reports the stop first (a failure located at the test) and continues the child, whose own failures follow -/
-def wantTest (separate : Bool) (ts : Script × Bool) : List Want :=
+def wantTest (separate : Bool) (ts : Script × Bool × Option Text.Bytes) : List Want :=
   let t := ts.1
   if t.info.willRun then
     let fs := scriptFailures t.info t.acts
-    let pre := if separate && ts.2 then [(t.info.file, t.info.line, lit "Stopped in separate process - continuing")] else []
-    let extra := if separate && !fs.isEmpty then [(t.info.file, t.info.line, lit "Failed in separate process")] else []
-    [.testStarted t.info.name] ++ (pre ++ fs ++ extra).map (fun (f, l, m) => .testFailed t.info f l m) ++
-      [.testFinished t.info.name]
+    -- `mockleft`: the mock plugin's post-test action (the last one) reports the expectation the body left unfulfilled,
+    -- provided the body itself reported no failure
+    let mk : List Want := match ts.2.2 with
+      | some fname => if (bodyFailures t.info t.acts).isEmpty then [.mockFailed t.info fname] else []
+      | none => []
+    let pre := if separate && ts.2.1 then [(t.info.file, t.info.line, lit "Stopped in separate process - continuing")] else []
+    let extra := if separate && !(fs.isEmpty && mk.isEmpty) then [(t.info.file, t.info.line, lit "Failed in separate process")] else []
+    [.testStarted t.info.name] ++ (pre ++ fs).map (fun (f, l, m) => .testFailed t.info f l m) ++ mk ++
+      extra.map (fun (f, l, m) => .testFailed t.info f l m) ++ [.testFinished t.info.name]
   else [.testStarted t.info.name, .testIgnored t.info.name, .testFinished t.info.name]
 
 /-- maximal runs of consecutive (script, stop mark) pairs with the same group name -/
-def groupRunsS : List (Script × Bool) → List (Text.Bytes × List (Script × Bool))
+def groupRunsS {α : Type} : List (Script × α) → List (Text.Bytes × List (Script × α))
   | [] => []
   | t :: rest =>
     match groupRunsS rest with
     | (g, ts) :: more => if g == t.1.info.group then (g, t :: ts) :: more else (t.1.info.group, [t]) :: (g, ts) :: more
     | [] => [(t.1.info.group, [t])]
 
-def markStops (scripts : List Script) (stops : List Nat) : List (Script × Bool) :=
-  (scripts.zip (List.range scripts.length)).map fun p => (p.1, stops.contains p.2)
+def markStops (scripts : List Script) (stops : List Nat) (mocks : List (Nat × Text.Bytes)) : List (Script × Bool × Option Text.Bytes) :=
+  (scripts.zip (List.range scripts.length)).map fun p =>
+    (p.1, stops.contains p.2, (mocks.find? (fun m => m.1 == p.2)).map (fun m => m.2))
 
-def wantAll (separate : Bool) (flt : Option Filter) (scripts : List Script) (stops : List Nat) : List Want :=
-  (groupRunsS (markStops scripts stops)).flatMap fun (g, ts) =>
+def wantAll (separate : Bool) (flt : Option Filter) (scripts : List Script) (stops : List Nat) (mocks : List (Nat × Text.Bytes)) : List Want :=
+  (groupRunsS (markStops scripts stops mocks)).flatMap fun (g, ts) =>
     [.suiteStarted g] ++ (ts.filter (fun t => shouldRun flt t.1.info)).flatMap (wantTest separate) ++ [.suiteFinished g]
 
 /-- readable rendering of a byte string inside a one-line reason: printable ASCII as is, the rest as \xNN -/
@@ -123,6 +141,11 @@ def matchWant : Want → Msg → Option String
     else if (t.file != f || decide (l < t.line)) && !(Text.isInfix m' (t.file ++ [58] ++ dec t.line)) then
       some s!"failure location {showB m'} does not contain the original test file:line"
     else none
+  | .mockFailed t fname, .testFailed n' m' d' =>
+    if t.name ≠ n' then some s!"failure names test {showB n'}, the open test is {showB t.name}"
+    else if !(Text.isInfix d' fname) then some s!"failure details decode to {showB d'}, which does not contain the original function name {showB fname}"
+    else if !(endsWithB m' (t.file ++ [58] ++ dec t.line)) then some s!"failure location {showB m'} does not end with the original file:line {showB (t.file ++ [58] ++ dec t.line)}"
+    else none
   | _, m => some s!"unexpected message {reprStr m}"
 
 def matchAll : Nat → List Want → List Msg → Option String
@@ -145,7 +168,7 @@ def printsHash (scripts : List Script) : Bool :=
     | .print f _ x => f.contains 35 || x.contains 35
     | _ => false
 
-def specRun (reg : Reg) (stops : List Nat) (out : Text.Bytes) : Option String :=
+def specRun (reg : Reg) (stops : List Nat) (mocks : List (Nat × Text.Bytes)) (out : Text.Bytes) : Option String :=
   if printsHash reg.scripts then none else
   match TeamCity.parse out with
   | .error e => some s!"stream does not parse as service messages: {e}"
@@ -155,10 +178,10 @@ def specRun (reg : Reg) (stops : List Nat) (out : Text.Bytes) : Option String :=
     else if !(failuresInOpenTest none msgs) then
       some "a failure message does not belong to the currently open test (its name is not the name announced by testStarted, or no test is open)"
     else if !(balanced msgs) then some "messages are not balanced (suite/test start and finish do not pair up)"
-    else matchAll 0 ((List.range reg.repeats).flatMap fun _ => wantAll reg.separate reg.filter scripts stops) (msgs.filter (fun m => !(isText m)))
+    else matchAll 0 ((List.range reg.repeats).flatMap fun _ => wantAll reg.separate reg.filter scripts stops mocks) (msgs.filter (fun m => !(isText m)))
 
 def specAll (ops : List Proto.Op) : Option String :=
-  let rec go (reg : Reg) (stops : List Nat) (i : Nat) : List Proto.Op → Option String
+  let rec go (reg : Reg) (stops : List Nat) (mocks : List (Nat × Text.Bytes)) (i : Nat) : List Proto.Op → Option String
     | [] => none
     | o :: rest =>
       match o.op with
@@ -169,16 +192,20 @@ def specAll (ops : List Proto.Op) : Option String :=
           | _ => none
         match outs with
         | [out] =>
-          match specRun reg stops out with
-          | none => go reg stops (i + 1) rest
+          match specRun reg stops mocks out with
+          | none => go reg stops mocks (i + 1) rest
           | some e => some s!"op#{i} run: {e}"
         | _ => some s!"op#{i} run: no output captured"
-      | ["childstop"] => go reg (if reg.tests.isEmpty then stops else (reg.tests.length - 1) :: stops) (i + 1) rest
+      | ["childstop"] => go reg (if reg.tests.isEmpty then stops else (reg.tests.length - 1) :: stops) mocks (i + 1) rest
+      | ["mockleft", h] =>
+        match Proto.unhex? h with
+        | some n => go reg stops (if reg.tests.isEmpty then mocks else (reg.tests.length - 1, n) :: mocks) (i + 1) rest
+        | none => go reg stops mocks (i + 1) rest
       | w =>
         match applyOp reg w with
-        | some r => go r stops (i + 1) rest
-        | none => go reg stops (i + 1) rest
-  go {} [] 0 ops
+        | some r => go r stops mocks (i + 1) rest
+        | none => go reg stops mocks (i + 1) rest
+  go {} [] [] 0 ops
 
 def main : IO Unit :=
   Proto.driverMain { init := ({} : DState), step := modelStep, spec := specAll }
